@@ -129,6 +129,14 @@ def cmpStr (op : Cmp) (a b : Str) : Bool :=
   match op with
   | .lt => strLt a b | .le => strLt a b || a == b | .gt => strLt b a | .ge => strLt b a || a == b
 
+def Val.isNum : Val → Bool | .num _ _ => true | .str _ => false
+def Val.isStr : Val → Bool | .str _ => true | .num _ _ => false
+/-- `x <op> y` on two values of the same kind (Python's `<` … on numbers / on strings) -/
+def cmpVal (op : Cmp) : Val → Val → Bool
+  | .num _ x, .num _ y => cmpNum op x y
+  | .str x, .str y => cmpStr op x y
+  | _, _ => false
+
 structure Scalar where
   value : Val
   units : Str
